@@ -332,6 +332,10 @@ func (c *compSession) update(its []proto.Message, mask *fieldmaskpb.FieldMask, s
 	if err, _ := out[1].Interface().(error); err != nil {
 		c.trace = append(c.trace, stepDesc{c.step, op, "error: " + err.Error()})
 		c.mon.Count("composite-update-rejected")
+		if _, valid := c.itemFields(mask); valid {
+			c.bad("Update/valid-update-mask-rejected", "an Update was rejected although its update mask (none, the item list, or fields of the items) names only fields that exist: the request's mask is not translated into the items' mask",
+				"a response", err.Error())
+		}
 		for _, it := range its {
 			pairs = append(pairs, fmt.Sprintf("%d:%d", c.keyOf(it.ProtoReflect()), c.id(it)))
 		}
@@ -359,10 +363,21 @@ func (c *compSession) update(its []proto.Message, mask *fieldmaskpb.FieldMask, s
 			c.bad("Composite/response", "the Update response does not list one item per key the collection holds", fmt.Sprint(len(keys), " items"), txt(resp))
 			return res
 		}
+		fields, _ := c.itemFields(mask)
 		for i, k := range keys {
 			got := rl.Get(i).Message().Interface()
 			if next[k] == nil {
 				next[k] = proto.Clone(got)
+				for _, it := range its {
+					if c.keyOf(it.ProtoReflect()) != k {
+						continue
+					}
+					if want := c.maskedItem(c.items[k], it, fields); !proto.Equal(want, got) {
+						c.bad("Update/update-mask-not-applied", "a successful Update did not write the item as its update mask says: without item fields in the mask the item is the payload's, else exactly the masked fields are taken from the payload and every other field keeps its value",
+							txt(want), txt(got))
+						return res
+					}
+				}
 			} else if !proto.Equal(next[k], got) {
 				c.bad("Composite/response", "an Update changed an item it did not write", txt(next[k]), txt(got))
 				return res
@@ -475,12 +490,81 @@ func (c *compSession) randomUpdate(skip *cstream) updResult {
 		seen[k] = true
 		its = append(its, c.newItem(k))
 	}
-	var mask *fieldmaskpb.FieldMask
-	if c.r.Intn(8) == 0 {
-		efs := c.sh.list.Message().Fields()
-		mask = &fieldmaskpb.FieldMask{Paths: []string{string(c.sh.list.Name()) + "." + string(efs.Get(c.r.Intn(efs.Len())).Name())}}
+	return c.update(its, c.randUpdateMask(), skip)
+}
+
+// randUpdateMask: none (1/2), the item list itself, one or two fields of the items (paths below the list), and now
+// and then a path below the list that does not exist (must be rejected, changes nothing)
+func (c *compSession) randUpdateMask() *fieldmaskpb.FieldMask {
+	ln := string(c.sh.list.Name())
+	efs := c.sh.list.Message().Fields()
+	switch x := c.r.Intn(20); {
+	case x < 10:
+		return nil
+	case x < 13:
+		return &fieldmaskpb.FieldMask{Paths: []string{ln}}
+	case x < 19:
+		n := 1 + c.r.Intn(2)
+		seen := map[string]bool{}
+		var ps []string
+		for i := 0; i < n; i++ {
+			p := ln + "." + string(efs.Get(c.r.Intn(efs.Len())).Name())
+			if !seen[p] {
+				seen[p] = true
+				ps = append(ps, p)
+			}
+		}
+		sort.Strings(ps)
+		return &fieldmaskpb.FieldMask{Paths: ps}
 	}
-	return c.update(its, mask, skip)
+	return &fieldmaskpb.FieldMask{Paths: []string{ln + ".no_such_field"}}
+}
+
+// itemFields is what an update mask means for ONE item (this family's own reading of the mask, independent of the
+// server's): the paths below the item list with the list's name stripped; the list itself, or no mask, selects whole
+// items (nil). ok=false: the mask names something that is not a field of the items.
+func (c *compSession) itemFields(mask *fieldmaskpb.FieldMask) (fields []protoreflect.FieldDescriptor, ok bool) {
+	if mask == nil {
+		return nil, true
+	}
+	ln := string(c.sh.list.Name())
+	for _, p := range mask.Paths {
+		if p == ln {
+			continue
+		}
+		if !strings.HasPrefix(p, ln+".") {
+			return nil, false
+		}
+		fd := c.sh.list.Message().Fields().ByName(protoreflect.Name(strings.TrimPrefix(p, ln+".")))
+		if fd == nil {
+			return nil, false
+		}
+		fields = append(fields, fd)
+	}
+	return fields, true
+}
+
+// maskedItem: the item a write of `payload` over `old` (nil: no item yet) has to produce: the whole payload item without
+// item fields in the mask, else the old item with exactly the masked fields taken from the payload (cleared when it lacks them).
+func (c *compSession) maskedItem(old, payload proto.Message, fields []protoreflect.FieldDescriptor) proto.Message {
+	if fields == nil {
+		return proto.Clone(payload)
+	}
+	var out proto.Message
+	if old != nil {
+		out = proto.Clone(old)
+	} else {
+		out = newMsg(c.sh.list.Message()).Interface()
+	}
+	o, pr := out.ProtoReflect(), payload.ProtoReflect()
+	for _, fd := range fields {
+		if pr.Has(fd) {
+			o.Set(fd, pr.Get(fd))
+		} else {
+			o.Clear(fd)
+		}
+	}
+	return out
 }
 
 func (c *compSession) open() {
